@@ -4,7 +4,7 @@ import common, zoo as zoolib, filelevel, workloads
 from common import Pair, proof_stage, rebuild_tools, build_pqh, build_zoo, Lock, TRUSTED_BASE
 
 MODULE = "PQ.Props.C01"
-THEOREMS = ["PQ.C01.levels_roundtrip", "PQ.C01.records_roundtrip", "PQ.C01.header_roundtrip", "PQ.C01.values_roundtrip", "PQ.C01.page_roundtrip"]
+THEOREMS = ["PQ.C01.levels_roundtrip", "PQ.C01.records_roundtrip", "PQ.C01.header_roundtrip", "PQ.C01.values_roundtrip", "PQ.C01.page_roundtrip", "PQ.C01.roundtrip", "PQ.C01.scan_is_projection", "PQ.readAll_runWriter", "PQ.readAll_text_runWriter", "PQ.readChunk_chunk"]
 
 
 def run(chk):
